@@ -14,8 +14,7 @@ an operation history can build.  Earlier versions are never changed by
 construction (the model is purely functional); on the Go side that part is
 checked by the oracle's re-observation of every earlier version.
 -/
-import ElvProofs.C07.Map
-import ElvProofs.C07.Without
+import ElvProofs.C07.History
 import ElvProofs.C07.Iter
 open C07 Go Gen.C07Bits
 
@@ -69,14 +68,7 @@ example : (0x40000000 : UInt32) ≠ 0x80000000 := by decide
 theorem C07_new_wf (eq : K → K → Bool) (hashf : K → UInt32) :
     WFMap eq hashf (HashMap.new : HashMap K V) ∧
       ∀ k, (HashMap.new : HashMap K V).index eq hashf k = .ok none := by
-  refine ⟨⟨?_, by simp [HashMap.new, HashMap.toAList, emptyBitmapNode]⟩, ?_⟩
-  · refine WF.bitmap (by omega) (by simp [rank_zero]) ?_ ?_ ?_
-    · intro c _ _ _ hs
-      simp [slot, hasBit_zero] at hs
-    · intro c _ _ hs
-      simp [slot, hasBit_zero] at hs
-    · intro c _ _ hs
-      simp [slot, hasBit_zero] at hs
+  refine ⟨⟨wf_empty eq hashf, by simp [HashMap.new, HashMap.toAList, emptyBitmapNode]⟩, ?_⟩
   · intro k
     cases k with
     | none => rfl
@@ -149,6 +141,72 @@ theorem C07_index_assoc {eq : K → K → Bool} {hashf : K → UInt32} (L : Lawf
       subst this
       simp only [HashMap.len]
 
+/-- **Dissoc refines erasure.**  On a well-formed map, `Dissoc(k)` succeeds (no
+panic — in particular `pack` never leaves zero-valued entries), the result is
+well-formed (array nodes are packed back into bitmap nodes, emptied children are
+removed), a later `Index(k')` finds nothing for keys equal to `k` and is unchanged
+for all other keys, and `Len` shrinks by one exactly when `k` was present. -/
+theorem C07_index_dissoc {eq : K → K → Bool} {hashf : K → UInt32} (L : Lawful eq hashf)
+    {m : HashMap K V} (hm : WFMap eq hashf m) (k : Option K) :
+    ∃ m', m.dissoc eq hashf k = .ok m' ∧ WFMap eq hashf m' ∧
+      (∀ k' old, m.index eq hashf k' = .ok old →
+        m'.index eq hashf k' = .ok (if keq eq k k' then none else old)) ∧
+      (∀ old, m.index eq hashf k = .ok old → m'.len = if old.isSome then m.len - 1 else m.len) := by
+  cases k with
+  | none =>
+    refine ⟨⟨if m.nilV.isSome then m.count - 1 else m.count, m.root, none⟩, rfl, ⟨hm.root, ?_⟩, ?_, ?_⟩
+    · have := hm.count
+      simp only [HashMap.toAList] at this ⊢
+      cases h : m.nilV <;> simp [h] at this ⊢ <;> omega
+    · intro k' old hold
+      cases k' with
+      | none => simp [HashMap.index, keq]
+      | some k' => simpa [HashMap.index, keq] using hold
+    · intro old hold
+      simp only [HashMap.index, Res.ok.injEq] at hold
+      subst hold
+      simp [HashMap.len]
+  | some k =>
+    obtain ⟨r, del, hw, post⟩ := without_spec L hm.root k
+    have hs0 : shiftOf 0 = (0 : UInt32) := rfl
+    rw [hs0] at hw
+    have hsize := post.size
+    have hfind := post.find
+    have hlen : ∀ old, m.index eq hashf (some k) = .ok old →
+        (if del then m.count - 1 else m.count) = if old.isSome then m.len - 1 else m.len := by
+      intro old hold
+      simp only [HashMap.index] at hold
+      have := post.isDel old (by rw [hs0]; exact hold)
+      subst this
+      simp only [HashMap.len]
+    simp only [hs0] at hfind
+    cases r with
+    | same =>
+      refine ⟨⟨if del then m.count - 1 else m.count, m.root, m.nilV⟩, by simp [HashMap.dissoc, hw],
+        wfmap_of_root hm _ del hm.root (by simpa [WRes.node, alOpt] using hsize), ?_, hlen⟩
+      intro k' old hold
+      cases k' with
+      | none => simpa [HashMap.index, keq] using hold
+      | some k' => exact hfind k' old hold
+    | emptyPtr =>
+      refine ⟨⟨if del then m.count - 1 else m.count, emptyBitmapNode, m.nilV⟩, by simp [HashMap.dissoc, hw],
+        wfmap_of_root hm _ del (wf_empty eq hashf) (by simpa [WRes.node, alOpt, emptyBitmapNode] using hsize), ?_, hlen⟩
+      intro k' old hold
+      cases k' with
+      | none => simpa [HashMap.index, keq] using hold
+      | some k' =>
+        have h1 : (Res.ok none : Res (Option V)) = .ok (if eq k k' then none else old) := hfind k' old hold
+        have h2 : (emptyBitmapNode : Node K V).find eq 0 (hashf k') k' = .ok none :=
+          (C07_new_wf eq hashf).2 (some k')
+        exact h2.trans h1
+    | fresh n =>
+      refine ⟨⟨if del then m.count - 1 else m.count, n, m.nilV⟩, by simp [HashMap.dissoc, hw],
+        wfmap_of_root hm _ del (post.wf n rfl).1 (by simpa [WRes.node, alOpt] using hsize), ?_, hlen⟩
+      intro k' old hold
+      cases k' with
+      | none => simpa [HashMap.index, keq] using hold
+      | some k' => exact hfind k' old hold
+
 /-- non-vacuity: a lawful pair, and a well-formed non-empty map with an array
 node's worth of colliding keys is reachable (see also the corpus). -/
 example : Lawful (fun a b : Nat => a % 7 == b % 7) (fun n => UInt32.ofNat (n % 7)) :=
@@ -158,6 +216,154 @@ example : Lawful (fun a b : Nat => a % 7 == b % 7) (fun n => UInt32.ofNat (n % 7
 /-- **`Len` is exact**: on every well-formed map it is the number of entries. -/
 theorem C07_len_exact {eq : K → K → Bool} {hashf : K → UInt32} {m : HashMap K V}
     (hm : WFMap eq hashf m) : m.len = (m.toAList.length : Int) := hm.count
+
+/-- **The contents hold every entry exactly once and `Index` is lookup in them.**
+`m.toAList` (the nil-key entry first, then the trie in iteration order) has no two
+entries with equal keys, and `Index(k) = v` exactly when it holds an entry `(k0, v)`
+with `k0` equal to `k`.  (`C07_iterator_yields_contents` shows the iterator protocol
+yields exactly this list.) -/
+theorem C07_contents_each_key_once {eq : K → K → Bool} {hashf : K → UInt32} (L : Lawful eq hashf)
+    {m : HashMap K V} (hm : WFMap eq hashf m) :
+    m.toAList.Pairwise (fun a b => keq eq a.1 b.1 = false) ∧
+      ∀ k v, m.index eq hashf k = .ok (some v) ↔ ∃ k0, keq eq k0 k = true ∧ (k0, v) ∈ m.toAList := by
+  have hnd := nodup_toAList L hm.root
+  constructor
+  · unfold HashMap.toAList
+    rw [List.pairwise_append]
+    refine ⟨by cases m.nilV <;> simp, ?_, ?_⟩
+    · rw [List.pairwise_map]
+      exact hnd
+    · intro a ha b hb
+      cases hn : m.nilV with
+      | none => rw [hn] at ha; cases ha
+      | some v0 =>
+        rw [hn] at ha; simp at ha; subst ha
+        simp only [List.mem_map] at hb
+        obtain ⟨e, _, rfl⟩ := hb
+        rfl
+  · intro k v
+    cases k with
+    | none =>
+      simp only [HashMap.index, HashMap.toAList]
+      constructor
+      · intro h
+        simp only [Res.ok.injEq] at h
+        exact ⟨none, rfl, by simp [h]⟩
+      · rintro ⟨k0, hk, hmem⟩
+        cases k0 with
+        | some _ => cases hk
+        | none =>
+          simp only [List.mem_append, List.mem_map] at hmem
+          rcases hmem with h | ⟨e, _, he⟩
+          · cases hn : m.nilV with
+            | none => rw [hn] at h; cases h
+            | some v0 => rw [hn] at h; simp at h; rw [h]
+          · cases he
+    | some k =>
+      simp only [HashMap.index]
+      have hs0 : shiftOf 0 = (0 : UInt32) := rfl
+      rw [← hs0, find_iff_mem L hm.root k v]
+      constructor
+      · rintro ⟨k0, hk, hmem⟩
+        refine ⟨some k0, hk, ?_⟩
+        simp only [HashMap.toAList, List.mem_append, List.mem_map]
+        exact Or.inr ⟨(k0, v), hmem, rfl⟩
+      · rintro ⟨k0, hk, hmem⟩
+        cases k0 with
+        | none => cases hk
+        | some k0 =>
+          refine ⟨k0, hk, ?_⟩
+          simp only [HashMap.toAList, List.mem_append, List.mem_map] at hmem
+          rcases hmem with h | ⟨e, he, hee⟩
+          · cases hn : m.nilV with
+            | none => rw [hn] at h; cases h
+            | some v0 => rw [hn] at h; simp at h
+          · cases e; simp at hee; obtain ⟨rfl, rfl⟩ := hee; exact he
+
+/-- **The iterator protocol yields the contents, each entry exactly once.**  Running
+`for it := m.Iterator(); it.HasElem(); it.Next() { it.Elem() }` on a well-formed map
+never panics and yields exactly `m.toAList` (whose keys are pairwise different by
+`C07_contents_each_key_once`), the nil-key entry first.  The step budget only has
+to cover the number of entries. -/
+theorem C07_iterator_yields_contents {eq : K → K → Bool} {hashf : K → UInt32}
+    {m : HashMap K V} (hm : WFMap eq hashf m) (fuel : Nat) (hfuel : m.toAList.length ≤ fuel) :
+    m.iterate fuel = .ok m.toAList := by
+  obtain ⟨hv, hr⟩ := iterator_spec (net_of_wf hm.root)
+  have hl : m.root.iterator.rest.length ≤ fuel := by
+    rw [hr]
+    simp only [HashMap.toAList, List.length_append, List.length_map] at hfuel
+    omega
+  have := drain_spec fuel _ hv hl
+  simp only [HashMap.iterate, this, hr, HashMap.toAList, ok_bind]
+  cases m.nilV <;> rfl
+
+/-- One step of the simulation: an operation on a map that simulates a reference
+dictionary succeeds and the results simulate again. -/
+theorem C07_step_refines_reference {eq : K → K → Bool} {hashf : K → UInt32} (L : Lawful eq hashf)
+    {m : HashMap K V} {r : List (Option K × V)} (hs : Sim eq hashf m r) (op : Op K V) :
+    ∃ m', applyOp eq hashf m op = .ok m' ∧ Sim eq hashf m' (refApply eq r op) := by
+  cases op with
+  | assoc k v =>
+    obtain ⟨m', h1, hwf, hidx, hlen⟩ := C07_index_assoc L hs.wf assocFuel (Nat.le_refl _) k v
+    refine ⟨m', h1, ⟨hwf, ?_, ?_, nodup_insert L r k v hs.nodup⟩⟩
+    · intro k'
+      rw [hidx k' _ (hs.index k')]
+      simp only [refApply]
+      rw [refLookup_insert L]
+    · rw [hlen _ (hs.index k)]
+      have := length_filter_nodup L k r hs.nodup
+      have hl := hs.len
+      simp only [refApply, List.length_cons]
+      cases h : refLookup eq r k <;> rw [h] at this <;>
+        simp only [Option.isSome_none, Option.isSome_some, Option.isNone_none, Option.isNone_some,
+          Bool.false_eq_true, if_false, if_true] at this ⊢ <;> omega
+  | dissoc k =>
+    obtain ⟨m', h1, hwf, hidx, hlen⟩ := C07_index_dissoc L hs.wf k
+    refine ⟨m', h1, ⟨hwf, ?_, ?_, nodup_filter r _ hs.nodup⟩⟩
+    · intro k'
+      rw [hidx k' _ (hs.index k')]
+      simp only [refApply]
+      rw [refLookup_filter L]
+    · rw [hlen _ (hs.index k)]
+      have := length_filter_nodup L k r hs.nodup
+      have hl := hs.len
+      simp only [refApply]
+      cases h : refLookup eq r k <;> rw [h] at this <;>
+        simp only [Option.isSome_none, Option.isSome_some,
+          Bool.false_eq_true, if_false, if_true] at this ⊢ <;> omega
+
+/-- **Every operation history refines the reference dictionary** (the property's
+headline statement).  For lawful `eq`/`hash`, every sequence of `Assoc`/`Dissoc`
+operations with arbitrary keys (nil key included, arbitrary hash collisions) run
+from `New` succeeds — no panic, no budget exhaustion — and the resulting map is
+well-formed, `Index` of every key equals lookup in the reference dictionary run on
+the same history, and `Len` is the reference's size.  Together with
+`C07_iterator_yields_contents` and `C07_contents_each_key_once` (which apply to the
+resulting well-formed map) iteration yields each entry exactly once. -/
+theorem C07_history_refines_reference {eq : K → K → Bool} {hashf : K → UInt32} (L : Lawful eq hashf)
+    (ops : List (Op K V)) :
+    ∃ m, runOps eq hashf ops (HashMap.new : HashMap K V) = .ok m ∧ WFMap eq hashf m ∧
+      (∀ k, m.index eq hashf k = .ok (refLookup eq (refRun eq ops []) k)) ∧
+      m.len = ((refRun eq ops []).length : Int) := by
+  have gen : ∀ (ops : List (Op K V)) (m : HashMap K V) (r : List (Option K × V)), Sim eq hashf m r →
+      ∃ m', runOps eq hashf ops m = .ok m' ∧ Sim eq hashf m' (refRun eq ops r) := by
+    intro ops
+    induction ops with
+    | nil => intro m r hs; exact ⟨m, rfl, hs⟩
+    | cons op ops ih =>
+      intro m r hs
+      obtain ⟨m1, h1, hs1⟩ := C07_step_refines_reference L hs op
+      obtain ⟨m2, h2, hs2⟩ := ih m1 _ hs1
+      exact ⟨m2, by simp [runOps, h1, h2], hs2⟩
+  have h0 : Sim eq hashf (HashMap.new : HashMap K V) [] :=
+    ⟨(C07_new_wf eq hashf).1, fun k => (C07_new_wf eq hashf).2 k, rfl, List.Pairwise.nil⟩
+  obtain ⟨m, h1, hs⟩ := gen ops _ _ h0
+  exact ⟨m, h1, hs.wf, hs.index, hs.len⟩
+
+example : (runOps (fun a b : Nat => a == b) (fun _ => 7)
+    [.assoc (some 1) 10, .assoc (some 2) 20, .assoc none 30, .dissoc (some 1), .assoc (some 2) 21]
+    (HashMap.new : HashMap Nat Nat) >>= fun m => pure (m.len, m.toAList)) =
+    .ok (2, [(none, 30), (some 2, 21)]) := by decide
 
 /-! ## the hypothesis `eq a b → hash a = hash b` is necessary (diagnostic for C08) -/
 
